@@ -318,6 +318,7 @@ pub mod fasta {
 //@end
 
 //@fn fasta::Reader::_search ret=r tags=C01,C06
+//@local bufsize ord=0 kind=let
 //@spec
         requires
             old(self).buf_reader.wf(),
@@ -405,6 +406,7 @@ pub mod fasta {
 //@end
 
 //@fn fasta::Reader::grow ret=r tags=C09,C06,C03
+//@local cap ord=0 kind=let
 //@spec
         requires
             old(self).wf0(),
@@ -422,6 +424,7 @@ pub mod fasta {
 //@end
 
 //@fn fasta::Reader::make_room tags=C03,C06,C09
+//@local consumed ord=0 kind=let
 //@spec
         requires
             old(self).wf0(),
@@ -476,6 +479,11 @@ pub mod fasta {
     spec fn fresh(&self) -> bool { self.b().len() == 0 && self.base() == 0 && self.clean() }
 
 //@fn fasta::Reader::first_byte ret=r tags=C01,C03,C05,C06,C14,C17
+//@local line_num ord=0 kind=letmut
+//@local pos ord=1 kind=letmut
+//@local last_line_len ord=2 kind=letmut
+//@local line ord=3 kind=for
+//@local n ord=4 kind=let
 //@spec
         requires
             old(self).wf0(), old(self).buf_reader.cap() >= 2, old(self).base() == 0, old(self).position.byte == 0,
@@ -1369,6 +1377,8 @@ trait RecordD {
 //@end
 
 //@fn fasta::RefRecord::owned_seq ret=r tags=C13,C04
+//@local seq ord=0 kind=letmut
+//@local segment ord=1 kind=for
 //@spec
         requires
             self.rwf(),
@@ -1424,6 +1434,7 @@ trait RecordD {
 //@end
 
 //@fn fasta::RefRecord::write_unchanged ret=r tags=C11
+//@local data ord=0 kind=let
 //@spec
         requires
             self.rwf(),
@@ -1700,6 +1711,8 @@ trait RecordD {
     }
 
 //@fn fasta::Reader::read_record_set_exact ret=r tags=C04,C03,C05,C06,C09,C14
+//@local is_new ord=0 kind=letmut
+//@local found ord=1 kind=let
 //@spec
         requires
             old(self).wf(), old(rset).wf(),
@@ -1887,6 +1900,7 @@ trait RecordD {
 //@end
 
 //@fn fasta::write_wrap_seq ret=r tags=C10
+//@local chunk ord=0 kind=for
 //@spec
         requires
             wrap > 0,
@@ -1924,6 +1938,7 @@ trait RecordD {
 //@end
 
 //@fn fasta::write_seq_iter ret=r tags=C10
+//@local subseq ord=0 kind=for
 //@spec
         requires
             seq.it_pre(), seq.it_lawful(),
@@ -1957,6 +1972,9 @@ trait RecordD {
 //@end
 
 //@fn fasta::write_wrap_seq_iter ret=r tags=C10
+//@local n_line ord=0 kind=letmut
+//@local subseq ord=1 kind=for
+//@local chunk ord=2 kind=letmut
 //@spec
         requires
             wrap > 0, seq.ii_pre(), seq.ii_lawful(),
